@@ -56,10 +56,7 @@ TEMP_RE = re.compile(r"(FLIP$|^LP\d?$|^H[DE][12][12]$|^HO?[12]?FLIP)")
 OPT_METHODS = ["try_both", "try_donor", "try_acceptor", "finalize", "complete",
                "fix_flip", "fix", "rename"]
 
-ALLOWED_STATES = {
-    "HIS": {"HID", "HIE"}, "HID": {"HID"}, "HSD": {"HID"}, "HIE": {"HIE"},
-    "HSE": {"HIE"}, "HIP": {"HIP"}, "HSP": {"HIP"},
-}
+ALLOWED_STATES = corpus.ALLOWED_STATES
 
 
 def canon(name):
